@@ -10,7 +10,7 @@ What is proved here is the part of the property that is logic of this code base:
     assert! / indexing; regenerated on every run) is in the reviewed table, with the category that says which guard,
     invariant or theorem keeps requests away from it;
   * the guards the inventory leans on that have a model: payload decoding refuses instead of panicking (C15), an
-    accepted reorg never reaches the "Reorg too deep" panic (C01), handlers cannot deadlock (C11).
+    accepted reorg never reaches the "Reorg too deep" panic (C01), handlers cannot deadlock (C11, separate file).
 Not covered by proof (parameters, exercised by suite Z on the real code): panics, loops and recursion inside revm,
 alloy, bitcoin, zstd, rocksdb, jsonrpsee; stack and memory exhaustion; the time a bounded loop takes.
 -/
@@ -19,7 +19,6 @@ import Brc20.Model.PanicReview
 import Brc20.Gen.Slot
 import Brc20.Gen.PanicSites
 import Brc20.Props.C01
-import Brc20.Props.C11
 import Brc20.Props.C15
 
 namespace Brc20
